@@ -142,7 +142,7 @@ def run(ck, facts, tier):
     iv = need_body(ck, facts, R, VAR + "::invert")
     inv_name = {v: k for k, v in NAMES.items()}
     if xf:
-        ms = pair_match(xf.thir, VAR)
+        ms = pair_match(facts.thir(xf.key), VAR)
         if len(ms) != 1:
             ms = [m for m in walk(xf.thir) if m.get("k") == "match" and m.get("src", "").startswith("Normal")]
         if len(ms) != 1:
@@ -181,7 +181,7 @@ def run(ck, facts, tier):
     rt = need_body(ck, facts, R, UNI + "::relate_ty_ty")
     from props.c18 import side_vars
     if rt:
-        ms = pair_match(rt.thir, "chalk_ir::TyKind")
+        ms = pair_match(facts.thir(rt.key), "chalk_ir::TyKind")
         if len(ms) != 1:
             ck.violation(R, "relate_ty_ty:match", rt.where(), "expected one pair match")
         else:
@@ -285,7 +285,7 @@ def run(ck, facts, tier):
                "variance (push_lifetime_outlives_goals itself chooses the directions, and Invariant needs both)")
     rl = need_body(ck, facts, R, UNI + "::relate_lifetime_lifetime")
     if rl:
-        ms = pair_match(rl.thir, "chalk_ir::LifetimeData")
+        ms = pair_match(facts.thir(rl.key), "chalk_ir::LifetimeData")
         if len(ms) != 1:
             ck.violation(R, "relate_lifetime_lifetime:table", rl.where(), "expected one match on the pair of lifetime kinds, found %d" % len(ms))
         else:
